@@ -291,4 +291,14 @@ func init() {
 	})
 }
 
+func init() {
+	replayDrivers = append(replayDrivers, replayDriver{
+		match: func(n string) bool { return strings.Contains(n, "u2fSignResponse#updateAuthCookieAuthlevel.C05.u2f-challenge-consumed") },
+		run: func(r *Report, o *Obligation, sr *SolveResult) ReplayResult {
+			out, conf := goReplay(r, "cmd/keymasterd", "keymasterd_u2f_replay_test.go", "TestVerifReplayU2FChallengeReuse", map[string]string{})
+			return ReplayResult{Confirmed: conf, Summary: replaySummary(out), Output: truncate(out, 4000), Driver: "TestVerifReplayU2FChallengeReuse (scenario of the model: token registered through webauthn, assertion verified in the transformed-registration branch)"}
+		},
+	})
+}
+
 var intRe = regexp.MustCompile(`\(?-?[0-9]+\)?`)
